@@ -1,7 +1,7 @@
 import Mathlib.Algebra.CharZero.Defs
 import Mathlib.RingTheory.Derivation.Basic
 variable {K : Type} [Field K] (D : Derivation ℤ K K)
-theorem D_ofNat' (n : ℕ) [n.AtLeastTwo] : D (OfNat.ofNat n : K) = 0 := by
+theorem D_ofNat' (n : ℕ) [n.AtLeastTwo] : D (no_index (OfNat.ofNat n) : K) = 0 := by
   rw [← Nat.cast_ofNat]; exact D.map_natCast _
 example : D (6070840288205403 : K) = 0 := by simp only [D_ofNat']
 example (x : K) : D (6070840288205403 / 7 * x) = 6070840288205403 / 7 * D x := by
